@@ -48,7 +48,7 @@ def leaf(rng):
     if r < 0.35:
         return ev.role(rng.choice(['admin', 'member', 'reader', 'ADMIN', 'nobody']))
     if r < 0.5:
-        return ev.generic('project_id', ev.ph(rng.choice(['project_id', 'target.project.id', 'missing'])))
+        return ev.generic('project_id', ev.ph(rng.choice(['project_id', 'target.project.id', 'target.project_id', 'missing'])))
     if r < 0.6:
         return ev.generic('user_id', ev.ph('user_id'))
     if r < 0.7:
@@ -149,7 +149,7 @@ def run(ctx):
             fixtures.append(json.load(f)['token'])
     cases = []
     n_wit = 0
-    for g in range(120 if q else 3000):
+    for g in range(450 if q else 4000):
         nn = rng.randint(1, 6)
         base = rng.sample(['compute:get', 'compute:list', 'admin_required', 'owner', 'svc:a:b', 'Zed:x', 'a:', ':b', 'volume:create', 'plain'], nn)
         if rng.random() < 0.6:
@@ -166,7 +166,8 @@ def run(ctx):
         target = None
         if rng.random() < 0.5:
             target = rng.choice([{'project_id': 'p1'}, {'target': {'project': {'id': 'p1'}}, 'flag': True}, {'n': {'k': 'lit'}, 'project_id': 'p2', 'user_id': 'u1'},
-                                 {'flag': 1, 'missing2': None}, {}])
+                                 {'flag': 1, 'missing2': None}, {}, {'target': {'secret': {'x': 1}, 'project_id': 'p1'}, 'user_id': 'u1', 'flag': True},
+                                 {'a': {'b': {'c': 'lit'}}, 'n': {'k': 'lit'}, 'project_id': 'p1'}, {'target': {}}, {'n': {}, 'flag': {}}])
         requested = ''
         r = rng.random()
         if r < 0.3:
